@@ -3,7 +3,7 @@
  "name": "space_used",
  "props": ["C15"],
  "level": "U",
- "tier": "wip",
+ "tier": "quick",
  "harness": "h_space_used",
  "enforce": ["space_used"],
  "loop_contracts": true,
@@ -22,7 +22,7 @@
  "name": "space_used_small",
  "props": ["C15"],
  "level": "B(3)",
- "tier": "wip",
+ "tier": "quick",
  "harness": "h_space_used_small",
  "unwind": 7,
  "unwind_reason": "bounded cross-check: count <= 3, names <= 4 bytes (+NUL) in real buffers, libc strlen is CBMC's built-in model; all loops unwound, unwinding assertions on",
